@@ -107,8 +107,8 @@ func (j *Judge) Reopen(im Image, ghost int, strict bool, refeed bool) (v Verdict
 	var r res
 	select {
 	case r = <-ch:
-	case <-time.After(20 * time.Second):
-		return Verdict{Class: "reopen-hang", Detail: "NewBlockChain did not return within 20s", Head: -1}
+	case <-time.After(60 * time.Second):
+		return Verdict{Class: "reopen-hang", Detail: "NewBlockChain did not return within 60s", Head: -1}
 	}
 	if r.pan != "" {
 		return Verdict{Class: "reopen-panic", Detail: trim(r.pan), Head: -1}
@@ -197,8 +197,8 @@ func (j *Judge) Reopen(im Image, ghost int, strict bool, refeed bool) (v Verdict
 	}()
 	select {
 	case ferr = <-fed:
-	case <-time.After(60 * time.Second):
-		return Verdict{Class: "refeed-hang", Detail: "re-import did not finish within 60s", Head: hid}
+	case <-time.After(120 * time.Second):
+		return Verdict{Class: "refeed-hang", Detail: "re-import did not finish within 120s", Head: hid}
 	}
 	if ferr != "" {
 		return Verdict{Class: "refeed-error", Detail: trim(ferr), Head: hid}
